@@ -402,7 +402,7 @@ CHECKS = {
         rule="sessions of 5..60 decisions on one partition (quick 250 sessions, thorough 4 x 5000): replication factor 1..5, pool of 3..8 data nodes, both balance "
              "algorithms, valid start layouts (replica count from the quorum minimum to factor+1, sparse replica ids, optionally one pending removal, optionally with "
              "RemoveTime 0); the environment (alive set, synced / members-ready / still-joined answers of the loopback data-node stubs, grace time elapsed, register "
-             "compare-and-swap ok/fail) is perturbed at random between decisions; decisions: migrate 40%, finish 20%, balance 15%, add 10%, remove 15%; "
+             "compare-and-swap ok/fail) is perturbed at random between decisions; decisions: migrate 40%, finish 20%, balance 15%, add 10%, remove 15%; plus a quarter as many sessions driven ONLY through `act check` = one full pass of the coordinator's own loop doCheckNamespaces (finish removals, migrate after the grace time, trim an over-replicated partition; half of them over-replicated starts, half ring layouts), not modelled in Lean, every register write of a pass judged by the Go oracle against the write before it; "
              "a case is non-trivial when the real code attempted a register write; distinct = distinct op lines",
         trusted=["the in-memory PDRegister and the loopback HTTP stubs of the harness stand for etcd and the data nodes (answers are inputs of the property, any combination is allowed)",
                  "one partition per namespace in the runs; the layout function inside the decisions is the real one on the Go side and the C17 model on the Lean side",
@@ -410,7 +410,7 @@ CHECKS = {
                  "rebalanceNamespace is run with a monitor channel that is closed at the first register write, so one call performs at most one write and none of its 5 s waits is taken"],
         partial=["C18_no_removal_when_majority_dead_full is false for the code: removeNamespaceFromNode (operator API RemoveNamespaceFromNode) has no liveness guard - proved for migrate and balance, counterexample C18_remove_unguarded_witness for remove (replayed on the real code: known finding F16)",
                  "the readiness clause of C18_growth for `add` holds through its only caller (addNodeToNamespaceAndWaitReady, inside balance); addNamespaceToNode itself has no gate",
-                 "doCheckNamespaces' own scheduling (wait intervals, the aliveCount > Replica trimming path via decideUnwantedRaftNode) and processRemovingNodes are not driven; their writes go through the modelled removeNamespaceFromNode / addNamespaceToNode"],
+                 "doCheckNamespaces (grace-time table, the aliveCount > Replica trimming path via decideUnwantedRaftNode, removings first) is driven on the real code and judged by the oracle only (act check); processRemovingNodes is not driven; their writes go through the modelled removeNamespaceFromNode / addNamespaceToNode"],
         assumptions=["start info valid (Inv): <= 1 removal pending, ISR a strict majority, raft nodes pairwise different, ids <= MaxRaftID"],
         level_text="Theorems about the executable Lean model of handleNamespaceMigrate, addNamespaceToNode, removeNamespaceFromNode, removeNamespaceFromRemovings and rebalanceNamespace (one-partition namespace), for every valid start info and every sequence of environments (alive set, data-node answers, CAS result, ANY answer of the layout function) and decisions: every info handed to the register has <= 1 pending removal, a duplicate-free ISR that is a strict majority of the replication factor (IsISRQuorum proved to be exactly that, even factors included), ids <= MaxRaftID and never reused; a decision adds at most one node, only with no removal pending, after every ISR member reported ready, with id = MaxRaftID+1; migrate and balance never mark a removal without a live majority. All guards are regenerated from the Go source. The model is tied to the code by a differential run of the real decision methods against an in-memory register and loopback data-node stubs (10k-400k decisions per run), each logged write also judged by an independent Go oracle.",
         level_note="The clause 'never marks a removal when more than half of the replicas are unreachable' fails for removeNamespaceFromNode called through the operator API (no liveness guard): proved counterexample, reproduced on the unchanged tree, listed as known finding F16.",
